@@ -1,14 +1,46 @@
-import PhysisModel.Proofs.Sha1Compress
+import PhysisModel.Proofs.Sha1Pad
 /-!
 # C10 — file-info tables and patch lists are produced and parsed faithfully
+
+Property theorems only; helper lemmas are in `Proofs/Sha1Compress.lean`, `Proofs/Sha1Pad.lean`,
+`Proofs/Fiin.lean`, `Proofs/PatchList.lean`.
 -/
 namespace Physis.C10
 open Physis
 
-/-- `Sha1State::process` (four rounds at a time on emulated SIMD registers) is the FIPS 180-4
-compression function (80 single rounds), for every chaining value and every 64-byte block. -/
+/-! ## SHA-1 (`src/sha1.rs`) -/
+
+/-- `Sha1State::process` (four rounds at a time on emulated SIMD registers, five rotating
+schedule registers) is the FIPS 180-4 compression function (80 single rounds), for every
+chaining value and every 64-byte block. -/
 theorem c10_sha1_compress (st : Sha1.State) (blk : Bytes) (h : blk.length = 64) :
     Sha1.toVars (Sha1.process st blk) = Spec.Sha1.compress (Sha1.toVars st) blk :=
   Sha1.process_eq st blk h
+
+/-- non-vacuity: a 64-byte block exists (and the two sides are computed on it) -/
+example : Sha1.toVars (Sha1.process Sha1.defaultState (List.replicate 64 0x61)) =
+    Spec.Sha1.compress Spec.Sha1.h0 (List.replicate 64 0x61) :=
+  c10_sha1_compress _ _ (by decide)
+
+/-- Buffering (`Blocks::input`), length accounting and padding (`Sha1::digest`: 0x80, zeros,
+64-bit big-endian bit length, one or two final blocks) feed the compression function exactly the
+FIPS 180-4 padded block sequence — for **every** message length, whatever the compression
+function is (`cfm` in the code, `cfs` in the standard, agreeing on 64-byte blocks). -/
+theorem c10_sha1_padding (cfm : Sha1.State → Bytes → Sha1.State)
+    (cfs : Spec.Sha1.Vars → Bytes → Spec.Sha1.Vars)
+    (hcf : ∀ st blk, blk.length = 64 → Sha1.toVars (cfm st blk) = cfs (Sha1.toVars st) blk)
+    (m : Bytes) : Sha1.sha1With cfm m = Spec.Sha1.sha1With cfs m :=
+  Sha1.sha1With_eq cfm cfs hcf m
+
+/-- `Sha1::from(m).digest().bytes()` is the SHA-1 digest of `m`, for every byte string. -/
+theorem c10_sha1 (m : Bytes) : Sha1.sha1 m = Spec.Sha1.sha1 m := Sha1.sha1_eq m
+
+/-- sanity (tests of the *specification*, labelled as such): FIPS 180-4 / RFC 3174 vectors -/
+example : Spec.Sha1.sha1 [0x61, 0x62, 0x63] =
+    [0xa9, 0x99, 0x3e, 0x36, 0x47, 0x06, 0x81, 0x6a, 0xba, 0x3e, 0x25, 0x71, 0x78, 0x50, 0xc2, 0x6c,
+     0x9c, 0xd0, 0xd8, 0x9d] := by decide +kernel
+example : Spec.Sha1.sha1 [] =
+    [0xda, 0x39, 0xa3, 0xee, 0x5e, 0x6b, 0x4b, 0x0d, 0x32, 0x55, 0xbf, 0xef, 0x95, 0x60, 0x18, 0x90,
+     0xaf, 0xd8, 0x07, 0x09] := by decide +kernel
 
 end Physis.C10
